@@ -25,7 +25,7 @@ func init() {
 		ID:   "C10",
 		Rule: "collections obtained from every element path of generated resources of all R4 types (primitive, complex, with structural duplicates) and from %env collections (integers, decimals of different scale, strings, mixed, duplicates): count/empty/exists; first=[0]=take(1), tail=skip(1), last=skip(count()-1); take(n)++skip(n)=c for n in [-3,count+3] ∪ {MinInt32,MaxInt32}; where/exists/all against the harness' own filtering for criteria field.exists(), field = literal, $this = literal; select(e) = concatenation of per-item select; extension(u) = extension.where(url=u); distinct/isDistinct, exclude, intersect against equality classes computed from the JSON values / structural equality; no nil item in any result. distinct_nontrivial = distinct (resource type, path, law) applications on collections with at least two items",
 		Assumptions: []string{"equality classes for the set functions are computed from JSON values (strings, numbers numerically, booleans) and proto.Equal for complex elements; collections of date/time primitives are excluded from the set-function checks (their equality depends on precision/offset rules covered by C05)",
-			"intersect may return items in any order and as System values (compared by equality class)"},
+			"intersect may return primitive elements of c as System values; it returns c's items (never the argument's equal copies), with c's type and precision, in c's order"},
 		Run:    runC10,
 		Checks: map[string]func(*core.Env, []json.RawMessage){"resource": replayC10, "envcoll": replayC10Env},
 		Threshold: func(m *core.Merged) []string {
@@ -419,28 +419,55 @@ func c10Sets(env *core.Env, cc *c10Coll, cv fhirpath.EvaluateOption, expectItems
 	expectBool("isDistinct", "%c.isDistinct()", len(order) == n)
 	expectBool("isDistinct", "%c.isDistinct() = (%c.count() = %c.distinct().count())", true)
 	// exclude / intersect with controlled overlap
-	others := []struct {
-		name string
-		d    system.Collection
-		keys []string
-	}{
-		{"self", cc.C, cc.Keys},
-		{"take1", cc.C[:1], cc.Keys[:1]},
-		{"tail", cc.C[1:], cc.Keys[1:]},
-		{"empty", system.Collection{}, nil},
+	type other struct {
+		name   string
+		d      system.Collection
+		keys   []string
+		cloned bool
+	}
+	others := []other{
+		{"self", cc.C, cc.Keys, false},
+		{"take1", cc.C[:1], cc.Keys[:1], false},
+		{"tail", cc.C[1:], cc.Keys[1:], false},
+		{"empty", system.Collection{}, nil, false},
 	}
 	foreign := system.String("\u0001not-an-item-of-c")
-	others = append(others, struct {
-		name string
-		d    system.Collection
-		keys []string
-	}{"foreign", system.Collection{cc.C[n-1], foreign}, []string{cc.Keys[n-1], "s:\u0001not-an-item-of-c"}})
+	others = append(others, other{"foreign", system.Collection{cc.C[n-1], foreign}, []string{cc.Keys[n-1], "s:\u0001not-an-item-of-c"}, false})
 	if n >= 3 {
-		others = append(others, struct {
-			name string
-			d    system.Collection
-			keys []string
-		}{"middle", cc.C[1:2], cc.Keys[1:2]})
+		others = append(others, other{"middle", cc.C[1:2], cc.Keys[1:2], false})
+		// a shorter argument holding equal copies of c's last and first item, in that (reversed) order
+		cp := func(v any) any {
+			if m, ok := v.(proto.Message); ok {
+				return proto.Clone(m)
+			}
+			return v
+		}
+		others = append(others, other{"reversed-copies", system.Collection{cp(cc.C[n-1]), cp(cc.C[0])}, []string{cc.Keys[n-1], cc.Keys[0]}, true})
+		// equal numbers of the other numeric type / another scale
+		var alt system.Collection
+		var altKeys []string
+		for i, it := range cc.C {
+			if len(alt) >= 2 {
+				break
+			}
+			switch v := it.(type) {
+			case system.Integer:
+				alt = append(alt, system.MustParseDecimal(fmt.Sprintf("%d.0", int32(v))))
+				altKeys = append(altKeys, cc.Keys[i])
+			case system.Decimal:
+				t := fx.Render(v).T
+				if strings.Contains(t, ".") {
+					t += "0"
+				} else {
+					t += ".0"
+				}
+				alt = append(alt, system.MustParseDecimal(t))
+				altKeys = append(altKeys, cc.Keys[i])
+			}
+		}
+		if len(alt) > 0 {
+			others = append(others, other{"other-numeric-type", alt, altKeys, false})
+		}
 	}
 	for _, o := range others {
 		inD := map[string]bool{}
@@ -505,6 +532,32 @@ func c10Sets(env *core.Env, cc *c10Coll, cv fhirpath.EvaluateOption, expectItems
 				got[keyOf(it)]++
 			}
 			bad := ""
+			// the result holds c's items: in the order in which c holds their classes, never an object that
+			// belongs to the argument only, and values with the type and precision c has them in (keyOf)
+			lastIdx := -1
+			for _, it := range in.Raw {
+				k := keyOf(it)
+				at := -1
+				for i, ck := range cc.Keys {
+					if ck == k {
+						at = i
+						break
+					}
+				}
+				if at >= 0 && at < lastIdx {
+					bad = "the classes in another order than c holds them"
+				}
+				if at > lastIdx {
+					lastIdx = at
+				}
+				if m, isMsg := it.(proto.Message); isMsg && o.cloned {
+					for _, di := range o.d {
+						if dm, ok := di.(proto.Message); ok && dm == m {
+							bad = "an element object of the argument instead of the equal item of c"
+						}
+					}
+				}
+			}
 			for k, c := range got {
 				if k == "?" || !wantIn[k] {
 					bad = "an item outside the intersection"
